@@ -12,9 +12,26 @@ import random
 from prettyprinter import doc as D
 
 
-def build(t):
+class Ann:
+    """annotation labels that are falsy / unhashable / equal-but-distinct objects: 'ann' terms carry the label NAME, build() maps it"""
+    OBJS = {'A': 'A', 'B': 'B', 'C': 'C', 'ZERO': 0, 'EMPTY': '', 'NONE': None, 'LIST': [1], 'DICT': {'k': 1}, 'EQ1': (1, 2), 'EQ2': (1, 2.0)}
+
+
+def build(t, memo=None):
+    """memo: dict - equal sub-terms then share ONE Doc object (as the printers' module-level constants do)"""
     if isinstance(t, str):
         return t
+    if memo is not None:
+        if t in memo:
+            return memo[t]
+        d = _build(t, memo)
+        memo[t] = d
+        return d
+    return _build(t, None)
+
+
+def _build(t, memo):
+    build = lambda x: globals()['build'](x, memo)
     k = t[0]
     if k == 'nil':
         return D.NIL
@@ -37,7 +54,7 @@ def build(t):
     if k == 'hang':
         return D.hang(t[1], build(t[2]))
     if k == 'ann':
-        return D.annotate(t[1], build(t[2]))
+        return D.annotate(Ann.OBJS.get(t[1], t[1]), build(t[2]))
     if k == 'fc':
         return D.flat_choice(when_broken=build(t[1]), when_flat=build(t[2]))
     if k == 'fill':
@@ -170,11 +187,11 @@ def compositions(m, k):
             yield (first,) + rest
 
 
-def rand_term(rng, depth=6, classic=False, labels=('A', 'B', 'C')):
+def rand_term(rng, depth=6, classic=False, labels=('A', 'B', 'C', 'ZERO', 'EMPTY', 'NONE', 'LIST', 'EQ1', 'EQ2')):
     if depth <= 0 or rng.random() < 0.25:
         c = rng.random()
         if c < 0.45:
-            return rng.choice(['a', 'bb', 'ccc', 'dddd', 'x' * rng.randint(1, 12), ' ', ''])
+            return rng.choice(['a', 'bb', 'ccc', 'dddd', 'x' * rng.randint(1, 12), ' ', '', 'y' * rng.randint(13, 45), '  ', 'a b'])
         if c < 0.65:
             return ('line',)
         if c < 0.8:
@@ -187,9 +204,9 @@ def rand_term(rng, depth=6, classic=False, labels=('A', 'B', 'C')):
         kinds += ['hang', 'fc', 'fill', 'fill']
     k = rng.choice(kinds)
     if k == 'cat':
-        return ('cat', tuple(rand_term(rng, depth - 1, classic, labels) for _ in range(rng.randint(0, 5))))
+        return ('cat', tuple(rand_term(rng, depth - 1, classic, labels) for _ in range(rng.choice([0, 1, 2, 2, 3, 3, 4, 5, 8]))))
     if k == 'fill':
-        n = rng.randint(0, 5)
+        n = rng.choice([0, 1, 2, 3, 3, 4, 5, 6, 7, 9])
         items = []
         for i in range(n):
             if i % 2 == 0 or rng.random() < 0.3:
@@ -198,9 +215,9 @@ def rand_term(rng, depth=6, classic=False, labels=('A', 'B', 'C')):
                 items.append(rng.choice([('line',), ('softline',), ('fc', ('hardline',), '  ')]))
         return ('fill', tuple(items))
     if k == 'nest':
-        return ('nest', rng.choice([1, 2, 4, 0]), rand_term(rng, depth - 1, classic, labels))
+        return ('nest', rng.choice([1, 2, 4, 0, 3, 7, 8, -1, -2]), rand_term(rng, depth - 1, classic, labels))
     if k == 'hang':
-        return ('hang', rng.choice([1, 2, 4]), rand_term(rng, depth - 1, classic, labels))
+        return ('hang', rng.choice([1, 2, 4, 0, 7]), rand_term(rng, depth - 1, classic, labels))
     if k == 'ann':
         return ('ann', rng.choice(labels), rand_term(rng, depth - 1, classic, labels))
     if k == 'fc':
@@ -240,4 +257,4 @@ def interesting_widths(t):
     w = flat_width(t)
     if w is not None:
         ws.update((w - 1, w, w + 1))
-    return sorted(x for x in ws if 1 <= x <= 60)
+    return sorted(x for x in ws if 1 <= x <= 120)
